@@ -294,7 +294,8 @@ def judge_docformat(root: Optional[str], sub: Optional[str], mod: Optional[str],
     eff = mod or sub or root or cli
     doc = '    ' + RAW.replace('\n', '\n    ')
     body = f'def f():\n    \'\'\'\n{doc}\'\'\'\n'
-    files = {'pk/__init__.py': f'"P."\n{decl(root)}', 'pk/sub/__init__.py': f'"S."\n{decl(sub)}', 'pk/sub/m.py': f'"M."\n{decl(mod)}{body}',
+    body_g = body.replace('def f():', 'def g():')
+    files = {'pk/__init__.py': f'"P."\n{decl(root)}from .sub.m import g\n__all__ = ["g"]\n', 'pk/sub/__init__.py': f'"S."\n{decl(sub)}', 'pk/sub/m.py': f'"M."\n{decl(mod)}{body}{body_g}',
              'pk/top.py': f'"T."\n{decl(mod)}{body}'}
     if eff in ('restructuredtext',):
         return          # the author wrote reST on purpose
@@ -306,17 +307,19 @@ def judge_docformat(root: Optional[str], sub: Optional[str], mod: Optional[str],
             res['violations'].append(core.violation(f'run-failed/{r.exc_type}@{r.exc_site}/docformat', f'driver failed on {label}: {r.exc_type}', case))
             return
         res['nontrivial'].add(core.h(label))
-        for page, expect in (('pk.sub.m.html', mod or sub or root or cli), ('pk.top.html', mod or root or cli)):
+        # (index.html is the page of pk, where the function g - written in pk.sub.m, re-exported by pk - is documented: the text was written in m's format)
+        for page, expect in (('pk.sub.m.html', mod or sub or root or cli), ('pk.top.html', mod or root or cli), ('index.html', mod or sub or root or cli)):
             if expect == 'restructuredtext':
                 continue
             probs, text = check_page(os.path.join(r.out, page))
             res['outcomes'].add(('docformat', expect, bool(probs)))
-            where = 'module-in-subpackage' if 'sub' in page else 'module-in-package'
+            where = 'module-in-subpackage' if 'sub' in page else ('re-exported-function' if page == 'index.html' else 'module-in-package')
+            tail = '' if where == 're-exported-function' else f'/own={mod}/package={sub if "sub" in page else root}'
             for clause, detail in probs:
-                res['violations'].append(core.violation(f'{clause}/docformat-resolution/{where}/own={mod}/package={sub if "sub" in page else root}',
+                res['violations'].append(core.violation(f'{clause}/docformat-resolution/{where}{tail}',
                                                         f'{label}: the docstring of {page[:-5]} is to be read as {expect}, yet {clause} ({detail!r})', case))
             if '<zqx1 onzqa1="1">t</zqx1>' not in shown_text(text):
-                res['violations'].append(core.violation(f'quoted-markup-not-shown/docformat-resolution/{where}/own={mod}/package={sub if "sub" in page else root}',
+                res['violations'].append(core.violation(f'quoted-markup-not-shown/docformat-resolution/{where}{tail}',
                                                         f'{label}: the docstring of {page[:-5]} is to be read as {expect}; the quoted snippet is not shown as text', case))
 
 
